@@ -36,6 +36,7 @@ import (
 	"github.com/ava-labs/hypersdk/internal/pebble"
 	"github.com/ava-labs/hypersdk/internal/validators"
 	"github.com/ava-labs/hypersdk/internal/validitywindow"
+	"github.com/ava-labs/hypersdk/internal/verifhook"
 	"github.com/ava-labs/hypersdk/internal/workers"
 	"github.com/ava-labs/hypersdk/statesync"
 	"github.com/ava-labs/hypersdk/storage"
@@ -685,10 +686,12 @@ func (vm *VM) AcceptBlock(ctx context.Context, _ *chain.OutputBlock, block *chai
 	if err := vm.executionResultsDB.Put([]byte{lastResultKey}, resultBytes); err != nil {
 		return nil, fmt.Errorf("failed to write execution results: %w", err)
 	}
+	verifhook.Point("results-written", block.Hght)
 
 	if err := vm.chain.AcceptBlock(ctx, block); err != nil {
 		return nil, fmt.Errorf("failed to accept block %s: %w", block, err)
 	}
+	verifhook.Point("state-committed", block.Hght)
 	return block, nil
 }
 
